@@ -991,7 +991,7 @@ func deref(n *node) {
 	if n.fnext != nil {
 		fnext := getExec(n.fnext)
 		n.exec = func(f *frame) bltn {
-			r := value(f).Elem()
+			r := elemOf(value(f))
 			if r.Bool() {
 				getFrame(f, l).data[i] = r
 				return tnext
@@ -1000,10 +1000,20 @@ func deref(n *node) {
 		}
 	} else {
 		n.exec = func(f *frame) bltn {
-			getFrame(f, l).data[i] = value(f).Elem()
+			getFrame(f, l).data[i] = elemOf(value(f))
 			return tnext
 		}
 	}
+}
+
+// elemOf returns the value pointed to by v. Dereferencing a nil pointer panics
+// with the run-time error of the language, as in compiled code.
+func elemOf(v reflect.Value) reflect.Value {
+	if v.Kind() == reflect.Ptr && v.IsNil() {
+		var p *int
+		_ = *p //nolint:govet,staticcheck // Raise the nil pointer dereference error.
+	}
+	return v.Elem()
 }
 
 func _print(n *node) {
